@@ -375,8 +375,8 @@ Lemma set_walk_paths used pre : forall s sp done t,
 Proof.
   induction pre as [|k pre IH]; intros s sp done t HI HR HRn HW HCl.
   - cbn [set_walk fst snd]. rewrite app_nil_r.
-    split; auto. split; [eauto|]. split; auto. split; auto. split; auto.
-    split; [intros q x H; now left|]. auto.
+    split; [exact HI|]. split; [eauto|]. split; [exact HRn|]. split; [exact HW|].
+    split; [auto|]. split; [intros q x H; now left|]. repeat split; auto.
   - cbn [clean] in HCl. destruct HCl as [HC1 HC2].
     rewrite set_walk_cons.
     destruct (walk_step_paths used s done t k HI HRn HW HC1)
